@@ -530,7 +530,7 @@ class Ev:
 # ------------------------------------------------------------------ Lean emission
 
 def lean_ty(t):
-    return {"Pt": "Pt R", "Ext": "Ext R", "Bool": "Bool", "R": "R", "Prop": "Prop", "Pair": "R × R"}[t]
+    return {"Pt": "Pt R", "Ext": "Ext R", "Bool": "Bool", "R": "R", "Prop": "Prop", "Pair": "R × R", "Quad": "R × R × R × R"}[t]
 
 
 class Emit:
@@ -665,6 +665,55 @@ variable {{R : Type}} [Add R] [Sub R] [Mul R] [Zero R] [One R] [NatCast R]
 """
 
 
+def suyama_consts(ecm_src):
+    """Suyama11::new: the curve constants as expressions in `one_third` (with 3 * one_third = 1)."""
+    impl = impl_block(ecm_src, SUY, "Suyama11 impl")
+    _, _, body = fn_source(impl, "new", "Suyama11::new")
+    must(r"let n3 = zn\.n / 3;\s*let one_third = match zn\.n % 3_u64 \{\s*1 => zn\.from_int\(zn\.n - n3\),\s*"
+         r"2 => zn\.from_int\(n3 \+ Uint::ONE\),\s*_ => return Err\(UnexpectedFactor\(3_u64\)\),\s*\};\s*"
+         r"debug_assert!\(zn\.mul\(zn\.from_int\(3_u64\.into\(\)\), one_third\) == zn\.one\(\)\);", body,
+         "Suyama11::new one_third")
+    m = must(r"(let a = .*?let gy = [^;]*;)\s*let s = Suyama11 \{ zn, a, b, gx, gy \};\s*"
+             r"assert!\(s\.is_valid\(&Point\(gx, gy, zn\.one\(\)\)\)\);\s*Ok\(s\)\s*$", body, "Suyama11::new constants")
+    ctx = dict(kind="zn", methods=set(), selfs={}, what="src/ecm.rs Suyama11::new", bools=set())
+    p = P(lex(m.group(1) + " (a, b, gx, gy)"), ctx)
+    ast = p.body()
+    if p.peek()[0] != "eof":
+        p.err("trailing tokens")
+    lets = [st[1] for st in ast[1]]
+    if lets != ["a", "b", "gx", "gy"]:
+        raise ExtractError(f"Suyama11::new binds {lets}")
+    f = Fn()
+    f.key, f.name, f.lean, f.group, f.params, f.ast, f.ret, f.uses_inv = (
+        "suyama.new", "new", "suyamaConsts", "none", [("one_third", "R")], ast, "Quad", False)
+    return f
+
+
+def from_point(ecm_src):
+    """Curve::from_point(zn, x, y): d = (x^2+y^2-1)/(xy)^2 through fraction_modn(a, b) = a * b^-1; g = (x, y, 1)."""
+    impl = impl_block(ecm_src, ECM, "ecm Curve impl")
+    _, _, body = fn_source(impl, "from_point", "Curve::from_point")
+    must(r"^\s*assert!\(x < 1 << 31 && y < 1 << 31\);\s*"
+         r"let gx = zn\.from_int\(Uint::from\(x\) % zn\.n\);\s*let gy = zn\.from_int\(Uint::from\(y\) % zn\.n\);\s*"
+         r"let dn = Self::fraction_modn\(&zn, \(x \* x \+ y \* y - 1\) as i64, 1\)\?;\s*"
+         r"let dd = Self::fraction_modn\(&zn, 1, \(x \* y\) as i64\)\?;\s*"
+         r"let d = zn\.mul\(zn\.mul\(dn, dd\), dd\);\s*let g = Point\(gx, gy, zn\.one\(\)\);\s*"
+         r"Ok\(Curve \{\s*zn,\s*twisted: false,\s*d,\s*g,\s*\}\)\s*$", body, "Curve::from_point body")
+    _, _, fb = fn_source(impl, "fraction_modn", "Curve::fraction_modn")
+    must(r"let binv = match arith_gcd::inv_mod\(&to_uint\(zn\.n, b\), &zn\.n\) \{\s*Ok\(inv\) => inv,\s*"
+         r"Err\(d\) => return Err\(UnexpectedFactor\(d\.digits\(\)\[0\]\)\),\s*\};\s*"
+         r"Ok\(zn\.mul\(zn\.from_int\(to_uint\(zn\.n, a\)\), zn\.from_int\(binv\)\)\)\s*$", fb, "Curve::fraction_modn body")
+    return ('/-- `ecm.from_point`: (d, g) for the curve through (x, y); `x y` are the residues of the integer '
+            'arguments,\n`fraction_modn(a, b) = a * inv b` -/\n'
+            "def ecmFromPoint (inv : R → R) (x : R) (y : R) : R × Pt R :=\n"
+            "  let gx := x\n  let gy := y\n"
+            "  let dn := ((x * x + y * y) - (1 : R)) * inv (1 : R)\n"
+            "  let dd := (1 : R) * inv (x * y)\n"
+            "  let d := (dn * dd) * dd\n"
+            "  let g : Pt R := ⟨gx, gy, (1 : R)⟩\n"
+            "  (d, g)\n")
+
+
 def run():
     fns, files = parse_all()
     cap, capl = chain_caps(files["src/ecm.rs"], files["src/ecm128.rs"])
@@ -691,7 +740,10 @@ def run():
         order.append(f)
     for f in fns.values():
         visit(f)
-    out = HEADER.format(cap=cap, capl=capl) + "\n".join(em.fn(f) for f in order) + "\nend Ymq.Gen.Curves\n"
+    sc = suyama_consts(files["src/ecm.rs"])
+    GROUPS["none"] = dict(kind="zn", selfs={}, selfparams=[])
+    extra = [em.fn(sc), from_point(files["src/ecm.rs"])]
+    out = HEADER.format(cap=cap, capl=capl) + "\n".join([em.fn(f) for f in order] + extra) + "\nend Ymq.Gen.Curves\n"
     write_gen("Curves", out, ["src/ecm.rs", "src/ecm128.rs"])
     return f"{len(order)} formulas, chain capacities {cap}/{capl}"
 
